@@ -135,6 +135,8 @@ def items(tier):
     out = [{"state": s, "cmd_index": i} for s in states() if s != "gitnested" for i in range(len(commands("/x")))]
     out += [{"state": "gitnested", "cmd_index": i} for i in range(len(GIT_COMMANDS))]
     out.append({"state": "nested"})
+    out.append({"state": "via-symlink"})
+    out.append({"state": "from-task-of-other-project"})
     return out
 
 
@@ -187,6 +189,8 @@ def run_item(item, tier):
 
     if item["state"] == "nested":
         _nested(res, viol)
+    elif item["state"] in ("via-symlink", "from-task-of-other-project"):
+        _environment(item["state"], res, viol)
     else:
         root = states()[item["state"]]()
         GIT_FOR_STATE["current"] = fakegit.RealGit() if item["state"] == "gitnested" else None
@@ -215,6 +219,53 @@ def run_item(item, tier):
     for key, (what, art) in found.items():
         res["violations"].append({"key": key, "what": what, "artefact": art})
     return res
+
+
+def _environment(kind, res, viol):
+    """The same command, same directory, different process environment: (a) the directory is entered through a symbolic link
+    that lives outside the project and $PWD holds that logical path (what a shell does after `cd link`); (b) the command is started
+    by a task of ANOTHER Conductor project (its whole task environment is inherited)."""
+    root = states()["runs"]()
+    snap = hist.snapshot(root, root + "-snap")
+    cmds = [["where", "//a:x"], ["where", "//a/b:t", "-p"], ["run", "//a/b:g", "--check"], ["run", "//a/b:g", "--again"], ["gc", "-n"], ["archive", "//a:x"]]
+    env_extra, entry = {}, None
+    if kind == "via-symlink":
+        entry = os.path.join(driver.scratch_root(), "c17-shortcut")
+        if os.path.lexists(entry):
+            os.unlink(entry)
+        os.symlink(os.path.join(root, "a", "b"), entry)
+        env_extra = {"PWD": entry}
+    else:
+        outer = driver.fresh_project({"COND": 'run_command(name="o", run="./o.sh")\n', "sub/COND": 'run_experiment(name="p", run="./p.sh", parallelizable=True)\n'}, name="c17outer")
+        r0 = hist.run(outer, ["run", "//sub:p", "-j", "2"], clock=driver.Clock(1_700_000_000))
+        envs = [p.env for p in r0.vk.procs.values() if p.env and p.env.get("COND_NAME") == "p"]
+        if not envs:
+            raise RuntimeError("outer task was not spawned")
+        env_extra = {k: v for k, v in envs[0].items() if os.environ.get(k) != v}
+    for i, cmd in enumerate(cmds):
+        GIT_FOR_STATE["current"] = None
+        ref_obs = observe(root, snap, cmd, "a/b", 1_700_000_100)
+        hist.restore_snapshot(snap, root)
+        for x in DIRS:
+            os.makedirs(os.path.join(root, x), exist_ok=True)
+        os.makedirs(os.path.join(root, "backups"), exist_ok=True)
+        cwd = entry or os.path.join(root, "a/b")
+        r = hist.run(root, cmd, cwd=cwd, clock=driver.Clock(1_700_000_100), behaviours=BEH, env=env_extra)
+        res["evals"] += 1
+        res["sigs"].add(explore.sig([kind, i]))
+        o = {"exit": r.exit, "exc": None if r.exc is None else "%s: %s" % (type(r.exc).__name__, r.exc),
+             "out": normalize(r.out_text, os.path.join(root, "a/b"), root), "err": normalize(r.err_text, os.path.join(root, "a/b"), root),
+             "tree": hist.digest({k: v for k, v in hist.data_tree(root).items() if not k.endswith(".tar.gz") and k != "a/.keep" and k != "a"}),
+             "rows": hist.rows(root)}
+        art = {"state": kind, "cmd_index": i}
+        for k in ("exc", "exit", "rows", "tree", "out", "err"):
+            if o[k] != ref_obs[k]:
+                viol("env:%s:%s-differs:%s" % (kind, k, cmd[0]), "`cond %s` in a/b, %s: %s = %r, ordinarily %r"
+                     % (" ".join(cmd), "entered through a symbolic link outside the project with $PWD set to it" if kind == "via-symlink"
+                        else "started with the environment of a task of another project", k, o[k], ref_obs[k]), art)
+                break
+    shutil.rmtree(snap, ignore_errors=True)
+    res["sample"] = {"state": kind, "commands": cmds}
 
 
 def _nested(res, viol):
